@@ -245,6 +245,17 @@ def r17_5(ctx):
             r.ob("array element access accepts `number` and numeric literals", ok, C.mloc(ia, a),
                  "index forms %s" % sorted(f for f in forms if f in ("TsNumberKeyword", "Number", "TsLitType", "TsKeywordType")) if ok else
                  "index forms handled: %s — %s missing" % (sorted(f for f in forms if f.startswith("Ts") or f == "Number"), [f for f in ("TsNumberKeyword", "Number") if f not in forms]))
+    # `Array<T>[..]`: the generic spelling must not be narrower than `T[][..]`
+    for x in walk(ia["body"]):
+        if x.get("k") == "If":
+            ct = strip_transparent(x["cond"])
+            consts = [const_str(y) for y in walk(ct) if const_str(y)]
+            if "Array" in consts:
+                forms = {y.get("variant") or (y.get("res") or {}).get("variant") for y in walk(ct) if y.get("k") in ("PPath", "PTupleStruct", "PStruct")}
+                narrowed = "TsNumberKeyword" in forms and "Number" not in forms
+                r.ob("`Array<T>[i]` is not restricted to the `number` keyword", not narrowed, C.mloc(ia, x),
+                     "no index-form restriction beside the name test" if not forms else ("index forms %s" % sorted(f for f in forms if f) if not narrowed else
+                     "the `Array` test is conjoined with an index test that accepts the `number` keyword only: `Array<string>[0]` resolves to nothing"))
     if not found:
         r.ob("array element access accepts `number` and numeric literals", None, C.mloc(ia, ia), "no TsArrayType arm in the indexed-access resolver: not decided")
     return r
